@@ -107,6 +107,30 @@ def run(ctx):
             L = len(stream)
             for a, b in rng.sample([(a, b) for a in range(1, L) for b in range(a + 1, L)], 3000):
                 jobs.append(("lg%d.c%d_%d" % (gi, a, b), cuts_to_chunks(stream, [a, b]), ends, [2] + ([3] if b"35=D" in f2 else []), 0))
+    # frames longer than one read(4096) of the reader loop: fed whole (the library itself splits them at 4096), cut at every
+    # position of their last bytes and around the 4096 boundary, alone, behind and in front of a small frame
+    def sized(seq, total):
+        n = max(1, total - len(p.frame("APP", seq, pay="p%d" % seq)))
+        for _ in range(4):
+            f = p.frame("APP", seq, pay="p%d" % seq + "x" * n)
+            if len(f) == total:
+                break
+            n += total - len(f)
+        return f
+    small2, small3 = p.frame("APP", 2, pay="p2"), p.frame("HB", 3)
+    for total in ((4097, 4098, 4100, 4104, 5000, 8195) if q else (4090, 4096, 4097, 4098, 4099, 4100, 4101, 4104, 4200, 5000, 8191, 8195, 12300)):
+        for bi, (stream, ends, expect) in enumerate([(sized(2, total), [total], [2]),
+                                                     (small2 + sized(3, total), [len(small2), len(small2) + total], [2, 3]),
+                                                     (sized(2, total) + small3, [total, total + len(small3)], [2])]):
+            L = len(stream)
+            cutset = {L} | set(range(max(1, ends[-1] - 9), ends[-1])) | set(range(max(1, ends[0] - 9), ends[0] + 2)) | set(range(4094, 4099))
+            if bi == 1:
+                cutset |= set(range(len(small2) + 4094, len(small2) + 4099))
+            for c in sorted(x for x in cutset if 0 < x <= L):
+                jobs.append(("big%d.%d.c%d" % (total, bi, c), cuts_to_chunks(stream, [c] if c < L else []), ends, expect, 0))
+        if total in (4098, 4100):
+            st = sized(2, total)
+            jobs.append(("big%d.bytes" % total, [bytes([x]) for x in st], [total], [2], 0))
     for si in range(40 if q else 600):
         stream, ends, expect, keep = make_stream(rng, rng.randint(1, 8), garbage=rng.random() < 0.5)
         L = len(stream)
